@@ -57,6 +57,9 @@ struct MockT {
 
 using EP = std::unique_ptr<trompeloeil::expectation>;
 
+// a user-defined exception type with a real move constructor (libstdc++'s own exception types copy when moved)
+struct sim_error { std::string text; };
+
 // run-time holes of a shape. Plain clauses copy it at creation, LR_ clauses see it live.
 struct Inst {
   int id = 0;
@@ -65,6 +68,7 @@ struct Inst {
   int snap = 0;
   int* cell = nullptr;
   std::string str;   // a local of class type named in LR_RETURN (short: no allocation)
+  sim_error exc;                  // a local exception object named in LR_THROW: thrown as a copy, on every call
   std::pair<int, int> pr{0, 0};   // a local that the library prints element-wise (trace records)
   trompeloeil::sequence* s[3] = {nullptr, nullptr, nullptr};
 };
@@ -106,6 +110,7 @@ std::pair<int, int> retp(int id, int snap, const void* a1);
 std::pair<int, int>& retpr(int id, int snap, std::pair<int, int>& target, const void* a1);   // an lvalue of the return type: must be copied, not moved from
 const int& retcref(int id, int snap, const int& target, const void* a1);
 std::runtime_error thr_std(int id, int snap);
+sim_error& thr_var(int id, int snap, sim_error& e);
 int thr_int(int id, int snap);
 
 inline int val(int x) { return x; }
